@@ -21,7 +21,7 @@ import numpy as np
 from vlib.coqfmt import cfloat
 
 REPO = os.environ.get("VERIF_REPO", "/repo")
-IDS = {"exp": 0, "log": 1, "lgamma": 2, "tan": 3, "sin": 4}
+IDS = {"exp": 0, "log": 1, "lgamma": 2, "tan": 3, "sin": 4, "log1p": 8, "expm1": 9}
 NAN = float("nan")
 INF = float("inf")
 
@@ -105,6 +105,23 @@ def c_lgamma(x):
         return INF
 
 
+def c_log1p(x):
+    x = float(x)
+    if x != x or x < -1.0:
+        return NAN
+    if x == -1.0:
+        return -INF
+    return math.log1p(x)
+
+
+def c_expm1(x):
+    x = float(x)
+    try:
+        return math.expm1(x)
+    except OverflowError:
+        return INF
+
+
 def c_sqrt(x):
     x = float(x)
     if x != x or x < 0.0:
@@ -146,6 +163,12 @@ class NpShim:
     def sin(self, x):
         return self._r.rec("sin", x, c_sin(x))
 
+    def log1p(self, x):
+        return self._r.rec("log1p", x, c_log1p(x))
+
+    def expm1(self, x):
+        return self._r.rec("expm1", x, c_expm1(x))
+
     def power(self, x, k):
         with np.errstate(all="ignore"):
             return float(np.power(float(x), k))
@@ -176,6 +199,10 @@ class Twin:
                 d["lgamma"] = lambda x: r.rec("lgamma", x, c_lgamma(x))
             if "sqrt" in d:
                 d["sqrt"] = c_sqrt
+            if "log1p" in d:
+                d["log1p"] = lambda x: r.rec("log1p", x, c_log1p(x))
+            if "expm1" in d:
+                d["expm1"] = lambda x: r.rec("expm1", x, c_expm1(x))
         # the untranslated functions approx.py calls in hypergeo.py: recorded with their results
         inv0, der0 = self.hypergeo._gammainc_inv, self.hypergeo._gammainc_der
 
